@@ -67,7 +67,7 @@ def in_contract(P):
     return True
 
 
-def fam_random(n, seed, modes=("solve",), allcfg=False, ca=None):
+def fam_random(n, seed, modes=("solve",), allcfg=False, ca=None, heights=None):
     r = random.Random(seed)
     k = 0
     while k < n:
@@ -79,7 +79,7 @@ def fam_random(n, seed, modes=("solve",), allcfg=False, ca=None):
             cfg = dict(cfg)
             cfg["mode"] = r.choice(modes)
             cfg["var"] = r.randrange(len(P["vidx"]))
-            cfg["height"] = 16
+            cfg["height"] = 16 if not heights else r.choice(heights)
             cfg["ent"] = r.choice([0, 1, 1])
             yield P, cfg
             k += 1
@@ -92,6 +92,7 @@ FAMS = {
     "configs": lambda n, s: fam_random(n, s, allcfg=True),
     "opt": lambda n, s: fam_random(n, s, modes=("min", "max")),
     "shaving": lambda n, s: fam_random(n, s, modes=("solve", "solve", "min", "max"), ca=1),
+    "cap": lambda n, s: fam_random(n, s, modes=("solve", "solve", "min"), heights=[1, 2, 3, 4]),
     "mixed": lambda n, s: fam_random(n, s, modes=("solve", "solve", "min", "max")),
 }
 
